@@ -109,7 +109,7 @@ def _validate(ctx, behs, tag):
     cur_rows = rows
     cur_path = tpath
     rounds = 0
-    while cur_rows and rounds < 12:
+    while cur_rows and rounds < (6 if ctx.quick else 12):
         rounds += 1
         res = vlib.tlc_trace(ctx, "Trace_RelaySMObs", "Trace_RelaySMObs.cfg", cur_path, tag="%s_obs%d" % (tag, rounds))
         if res["accepted"]:
@@ -159,6 +159,31 @@ def _coverage(ctx, rows, nbeh):
     ctx.cov["event_counts"] = evs
 
 
+def _conf_drift(ctx, rows):
+    """second pass, drift only: is the log a behaviour of RelaySM.tla (silent steps searched by TLC)?"""
+    per = {}
+    cur = None
+    for r in rows:
+        if r["ev"] == "reset":
+            ok = (r["maxRetries"], r["sendAttempts"], r["retryLimit"], r["tp"]) == (CFG["maxRetries"], CFG["sendAttempts"], CFG["retryLimit"], False)
+            cur = r["sel"] if ok else None
+        if cur:
+            per.setdefault(cur, []).append(r)
+    for sel, rs in sorted(per.items()):
+        path = os.path.join(ctx.work, "conf_%s.ndjson" % sel)
+        vlib.write_ndjson(path, rs)
+        try:
+            res = vlib.tlc_trace(ctx, "Trace_RelaySM", "Trace_RelaySM_%s.cfg" % sel, path, tag="conf_" + sel, timeout=1800)
+        except vlib.Infra as e:
+            ctx.drift.append("Conf pass (%s) did not run: %s" % (sel, str(e)[:200]))
+            continue
+        nb = sum(1 for r in rs if r["ev"] == "reset")
+        if res["accepted"]:
+            ctx.notes.append("Conf: %d %s logs (%d events) are behaviours of RelaySM.tla" % (nb, sel, len(rs)))
+        else:
+            ctx.drift.append("Conf (%s): log not a behaviour of RelaySM.tla after event line %s of %d" % (sel, res["reached"], len(rs)))
+
+
 def run(ctx):
     # ---- M
     cfgs = ctx.pick(["RelaySM_mcq.cfg", "RelaySM_mcq_stateful.cfg", "RelaySM_mcq_cv.cfg"],
@@ -202,7 +227,7 @@ def run(ctx):
             vlib.json.dumps(b["g"]), b["spec"], again, len(bad1) + len(bad2)), {"policy": [{"g": b["g"], "rows": [b["spec"]]}]})
 
     # ---- real state machine traces
-    behs = _gen(ctx, ctx.pick(40, 300))
+    behs = _gen(ctx, ctx.pick(30, 150))
     ctx.cov["distinct_nontrivial"] = len({vlib.json.dumps(b) for b in behs if len(b["steps"]) >= 4})
     ctx.cov["rule"] = ("policy: every row of the TLC-emitted bounded domain (see specs/RetryPolicy_emit*.cfg, RetryPolicy_send.cfg); "
                        "state machine: environment schedules = TLC -simulate runs of RelaySM.tla GenNext per selection mode "
@@ -218,23 +243,29 @@ def run(ctx):
         "mock relay sender / results checker; archive re-parsing returns the same message",
         "attempt bound checked: batches sent <= 2*MaxRetries+2 (the literal MaxRetries bound does not hold under pipelined decisions, see docs/notes/C34.md)",
     ]
-    seen = set()
+    if not ctx.quick:
+        _conf_drift(ctx, rows)
+    # schedule dependent: every signature is re-executed in fresh processes (up to 3 witnesses x 3 attempts)
+    by_sig = {}
     for bad in bads:
-        if bad["sig"] in seen:
-            continue
-        seen.add(bad["sig"])
-        # schedule dependent: retry the single behaviour a few times in fresh processes
+        by_sig.setdefault(bad["sig"], []).append(bad)
+    for sig, cands in by_sig.items():
         rep = None
-        for k in range(3):
-            _, again = _validate(ctx, [bad["beh"]], "repro%d" % k)
-            hit = [a for a in again if a["sig"] == bad["sig"]]
-            if hit:
-                rep = hit[0]
+        k = 0
+        for bad in cands[:3]:
+            for _ in range(3):
+                k += 1
+                _, again = _validate(ctx, [bad["beh"]], "repro%d" % k)
+                hit = [a for a in again if a["sig"] == sig]
+                if hit:
+                    rep = (hit[0], bad)
+                    break
+            if rep:
                 break
         if rep is None:
-            raise vlib.Infra("counter-example not reproduced: %s" % bad["sig"])
-        ctx.violation(rep["sig"], "real UnifiedRelayStateMachine violates %s at log line %d: %s" % (
-            rep["inv"], rep["line"], vlib.json.dumps(rep["event"])[:300]), {"behaviours": [bad["beh"]]})
+            raise vlib.Infra("counter-example not reproduced: %s" % sig)
+        ctx.violation(sig, "real UnifiedRelayStateMachine violates %s at log line %d: %s" % (
+            rep[0]["inv"], rep[0]["line"], vlib.json.dumps(rep[0]["event"])[:300]), {"behaviours": [rep[1]["beh"]]})
 
 
 def replay(ctx, path):
